@@ -6,6 +6,7 @@
   exactly the input's sub-slices).
 -/
 import CoseModel.Headers
+import CoseModel.TagScan
 namespace CoseModel
 
 structure Hdrs where
@@ -70,13 +71,16 @@ def detBstr (data : Bytes) : Out Bytes :=
 
 /-! ### header-bucket decoders -/
 
-/-- `validateHeaderLabelCBOR` on the entries of a map: every key an int within int64 or
-    valid UTF-8 text, no duplicates after conversion. -/
+/-- the decode of `validateHeaderLabelCBOR` (into `map[headerLabelValidator]discardedCBORMessage`)
+    on the entries of a map: every key an int within int64 or valid UTF-8 text, no duplicates
+    after conversion.  The decoder strips leading 55799 tags before it hands a key to
+    `headerLabelValidator.UnmarshalCBOR`, which refuses any other tag (`data[0]>>5` is 6); the
+    keys that got through wrapped in 55799 are refused next, by `headerLabelsUntagged`. -/
 def labelsOK : List (Wire × Wire) → List GoVal → Out Unit
   | [], _ => .ok ()
   | (k, _) :: r, seen =>
-    match k with
-    | .tag .. => .unmodelled
+    match k.stripSelfDescribed with
+    | .tag .. => .err .other
     | .uint _ n =>
       if n ≤ maxInt64 then
         let key := GoVal.int .i64 n
@@ -109,6 +113,7 @@ def decProtectedContent (enc : Bytes) : Out GoMap :=
     match parseTop true enc with
     | some (.map _ kvs) => do
         labelsOK kvs []
+        if !headerLabelsUntagged enc then .err .other else
         let m ← decodePairs kvs []
         if !validateHeaderParameters m true then .err .other
         else .ok (castAlg m)
@@ -150,9 +155,10 @@ def decSigFields : List Wire → Out GoVal
   | _ => .err .other
 /-- `UnprotectedHeader.UnmarshalCBOR` on one well-formed item -/
 def decUnprot : Wire → Out GoMap
-  | .map _ kvs =>
+  | .map hw kvs =>
     match labelsOK kvs [] with
     | .ok _ =>
+      if !headerLabelsUntagged (Wire.map hw kvs).bytes then .err .other else
       (match decUnprotPairs kvs with
        | .ok m => if validateHeaderParameters m false then .ok m else .err .other
        | .err e => .err e | .panic => .panic | .unmodelled => .unmodelled)
@@ -301,7 +307,11 @@ def Unprotected.unmarshal (data : Bytes) : Out GoMap :=
   | b0 :: _ =>
     if b0.toNat / 32 ≠ 5 then .err .other else
     match parseTop true data with
-    | some w => if w.hasTag then .unmodelled else decUnprot w
+    | some w =>
+      -- `decModeWithTagsForbidden.Wellformed(data)` comes first: no tag anywhere in the bucket,
+      -- decoded on its own as inside a message
+      if w.hasTag then .err .other
+      else decUnprot w
     | none => .err .other
 
 /-! ### encoders -/
